@@ -1,6 +1,7 @@
 /* Strict RFC 1035 parser written for the harness (independent of src/dns.c, src/read.c). */
 #include <stdio.h>
 #include <string.h>
+#include <stddef.h>
 #include "refdns.h"
 
 #define T_A 1
@@ -69,10 +70,10 @@ static int u16(const uint8_t *p) { return (p[0] << 8) | p[1]; }
 int rd_parse(const uint8_t *m, int len, rd_msg *o, char *err)
 {
 	pctx c;
-	memset(&c, 0, sizeof c);
+	memset(c.labelstart, 0, (size_t)(len > 0 ? len : 0) / 8 + 1);
 	c.m = m; c.len = len; c.err = err;
 	err[0] = 0;
-	memset(o, 0, sizeof *o);
+	memset(o, 0, offsetof(rd_msg, rr));
 	if (len < 12) return fail(&c, "message shorter than header (%d)", len, 0);
 	if (len > 65535) return fail(&c, "message too long", 0, 0);
 	o->id = u16(m);
